@@ -11,6 +11,9 @@
 //       "pat <pattern text> codes=<alt;alt> m=<score per node> s=<0/1 per node>"
 //         codes: per union alternative the step op codes R(eFROM_ROOT) @(eMATCH_ATTRIBUTE) A(eMATCH_ANY_ANCESTOR)
 //                I(eMATCH_IMMEDIATE_ANCESTOR) P(eMATCH_ANY_ANCESTOR_WITH_PREDICATE) F(eOP_FUNCTION) G(.._WITH_FUNCTION_CALL)
+//         codes also carry, after each step, one '+' (eOP_PREDICATE_WITH_POSITION) or '-' (eOP_PREDICATE) per predicate
+//         amb: 1 where getMatchScore(N) under a singleton ambient context node list differs from the value under the
+//              all-nodes ambient list (must be all 0: the caller's node list is not the step's node list)
 //         m: XPath::getMatchScore(N) for every node N of the current document (0 none,1 nodetest,2 nswild,3 qname,4 other)
 //         s: the *defining* side evaluated by the real expression engine: 1 iff some ancestor-or-self A of N has
 //            N in XPath::execute(P as expression, context A)
@@ -29,6 +32,7 @@
 #include <xalanc/XPath/XObjectFactoryDefault.hpp>
 #include <xalanc/XPath/XObject.hpp>
 #include <xalanc/XPath/NodeRefListBase.hpp>
+#include <xalanc/XPath/MutableNodeRefList.hpp>
 #include <xalanc/XPath/XPath.hpp>
 #include <xalanc/XPath/XPathExpression.hpp>
 #include <xalanc/XPath/XPathConstructionContextDefault.hpp>
@@ -144,8 +148,23 @@ static std::string stepCodes(const XPath& xp)
         XPathExpression::OpCodeMapPositionType p = opPos + 2;
         while (e.getOpCodeMapValue(p) != XPathExpression::eENDOP)
         {
-            out.push_back(codeChar(e.getOpCodeMapValue(p)));
-            p = e.getNextOpCodePosition(p);
+            const char c = codeChar(e.getOpCodeMapValue(p));
+            out.push_back(c);
+            const XPathExpression::OpCodeMapPositionType next = e.getNextOpCodePosition(p);
+            if (c == 'R' || c == '@' || c == 'A' || c == 'I' || c == 'P')
+            {
+                // the step's predicates: '+' eOP_PREDICATE_WITH_POSITION, '-' eOP_PREDICATE
+                XPathExpression::OpCodeMapPositionType q = p + 3 + e.getOpCodeArgumentLength(p);
+                while (q < next)
+                {
+                    const int op = e.getOpCodeMapValue(q);
+                    if (op == XPathExpression::eOP_PREDICATE_WITH_POSITION) out.push_back('+');
+                    else if (op == XPathExpression::eOP_PREDICATE) out.push_back('-');
+                    else break;
+                    q = e.getNextOpCodePosition(q);
+                }
+            }
+            p = next;
         }
         opPos = next;
     }
@@ -182,7 +201,7 @@ int main()
                     std::cout << "doc ERR:parse\n";
                 }
             }
-            else if (cmd == "pat")
+            else if (cmd == "pat" || cmd == "fpat")
             {
                 const std::string text = unhex(hex);
                 if (!d) { std::cout << "pat " << text << " ERR:nodoc\n"; continue; }
@@ -209,9 +228,25 @@ int main()
                     stage = "eval";
 
                     const size_t n = d->nodes.size();
-                    std::string m(n, '0'), sp(n, '0');
-                    for (size_t i = 0; i < n; ++i)
-                        m[i] = char('0' + int(pat->getMatchScore(d->nodes[i], resolver, ec)));
+                    std::string m(n, '0'), sp(n, '0'), amb(n, '0');
+                    {
+                        // The caller's context node list must not influence matching (a pattern predicate's
+                        // position()/last() refer to the step's own node list): getMatchScore is called with an
+                        // ambient list of all nodes of the document, and again with the singleton list of the node.
+                        MutableNodeRefList all(*xercesc::XMLPlatformUtils::fgMemoryManager);
+                        for (size_t i = 0; i < n; ++i) all.addNode(d->nodes[i]);
+                        for (size_t i = 0; i < n; ++i)
+                        {
+                            {
+                                XPathExecutionContext::ContextNodeListPushAndPop push(ec, all);
+                                m[i] = char('0' + int(pat->getMatchScore(d->nodes[i], resolver, ec)));
+                            }
+                            MutableNodeRefList one(*xercesc::XMLPlatformUtils::fgMemoryManager);
+                            one.addNode(d->nodes[i]);
+                            XPathExecutionContext::ContextNodeListPushAndPop push(ec, one);
+                            if (char('0' + int(pat->getMatchScore(d->nodes[i], resolver, ec))) != m[i]) amb[i] = '1';
+                        }
+                    }
                     // the defining side: N in eval(P, A) for an ancestor-or-self A of N
                     for (size_t a = 0; a < n; ++a)
                     {
@@ -231,7 +266,7 @@ int main()
                             }
                         }
                     }
-                    o << "codes=" << stepCodes(*pat) << " m=" << m << " s=" << sp;
+                    o << "codes=" << stepCodes(*pat) << " amb=" << amb << " m=" << m << " s=" << sp;
                 }
                 catch (const XSLException&)
                 {
